@@ -25,7 +25,7 @@ fn main() {
                 h = o;
             }
             let mut rng = n.cx.hist_rng(h);
-            match rng.below(12) {
+            match rng.below(15) {
                 0 => n.map_history::<u32, u32, 0>(h, rng, steps),
                 1 => n.map_history::<u32, u32, 1>(h, rng, steps),
                 2 => n.map_history::<u32, u32, 2>(h, rng, steps),
@@ -37,6 +37,10 @@ fn main() {
                 8 => n.set_history::<u32, 4, 4>(h, rng, steps),
                 9 => n.set_history::<u32, 8, 3>(h, rng, steps),
                 10 => n.set_history::<BigK, 3, 5>(h, rng, steps),
+                // containers larger than a page (16 KiB, 8 KiB, 10 KiB)
+                11 => n.map_history::<u32, BigV, 32>(h, rng, steps),
+                12 => n.set_history::<BigK, 64, 4>(h, rng, steps),
+                13 => n.map_history::<BigK, BigV, 16>(h, rng, steps),
                 _ => n.set_history::<u32, 0, 2>(h, rng, steps),
             }
             n.cx.rep.histories += 1;
